@@ -247,13 +247,16 @@ Section Stmt.
 
   Definition vstmt_spec (s : stmt) : Prop :=
     forall sc sc', check_stmt tys np ret sc s = Some sc' -> sflags_stmt tys s = [] ->
-    exists code d, cstmt tys ret s = Some (code, d) /\ vcode code d.
+    loop_free_stmt s = true ->
+    exists code d, (forall dp lp, cstmt tys ret dp lp s = Some (code, d)) /\ vcode code d.
   Definition vblock_spec (b : block) : Prop :=
     forall sc, check_block tys np ret sc b = true -> sflags_block tys b = [] ->
-    exists code d, cblock tys ret b = Some (code, d) /\ vcode code d.
+    loop_free_block b = true ->
+    exists code d, (forall dp lp, cblock tys ret dp lp b = Some (code, d)) /\ vcode code d.
   Definition vels_spec (el : els) : Prop :=
     forall sc, check_els tys np ret sc el = true -> sflags_els tys el = [] ->
-    exists code he d, cels tys ret el = Some (code, he, d) /\ vcode code false.
+    loop_free_els el = true ->
+    exists code he d, (forall dp lp, cels tys ret dp lp el = Some (code, he, d)) /\ vcode code false.
 
   Lemma vend_none p : vend None ([], p) = true.
   Proof. reflexivity. Qed.
@@ -277,27 +280,27 @@ Section Stmt.
   Proof.
     apply stmt_block_els_ind.
     - (* declaration *)
-      intros i t e sc sc' Hc Hs. unf_in Hc; unf_in Hs.
+      intros i t e sc sc' Hc Hs _. unf_in Hc; unf_in Hs.
       destruct (Nat.leb np i && negb (existsb (Nat.eqb i) sc) &&
                 match nth_error tys i with Some t' => ty_eqb t t' | None => false end &&
                 expr_ok tys sc e t) eqn:C; [|discriminate]. injection Hc as <-.
       apply andb_true_iff in C. destruct C as [C He]. apply andb_true_iff in C. destruct C as [C Ht].
       destruct (nth_error tys i) as [t'|] eqn:Hn; [|discriminate]. apply ty_eqb_eq in Ht. subst t'.
       destruct (cexpr_to_valid sc e t (Some t) He Hs) as (c & Ec & Vc).
-      unf. rewrite Hn, Ec. eexists _, _. split; [reflexivity|].
+      eexists _, _. split; [intros dp lp; unf; rewrite Hn, Ec; reflexivity|].
       intros p. exists p. split; [|discriminate]. va Vc.
       vs (val_lset lts rt i (vt_of t)); [reflexivity|apply map_nth_error; assumption].
     - (* assignment *)
-      intros i e sc sc' Hc Hs. unf_in Hc; unf_in Hs.
+      intros i e sc sc' Hc Hs _. unf_in Hc; unf_in Hs.
       destruct (var_ty tys sc i) as [t|] eqn:Hv; [|discriminate].
       destruct (expr_ok tys sc e t) eqn:He; [|discriminate]. injection Hc as <-.
       destruct (var_ty_spec _ _ _ _ Hv) as [Hi Hn]. rewrite Hn in Hs.
       destruct (cexpr_to_valid sc e t (Some t) He Hs) as (c & Ec & Vc).
-      unf. rewrite Hn, Ec. eexists _, _. split; [reflexivity|].
+      eexists _, _. split; [intros dp lp; unf; rewrite Hn, Ec; reflexivity|].
       intros p. exists p. split; [|discriminate]. va Vc.
       vs (val_lset lts rt i (vt_of t)); [reflexivity|apply map_nth_error; assumption].
     - (* compound assignment *)
-      intros i op e sc sc' Hc Hs. unf_in Hc; unf_in Hs.
+      intros i op e sc sc' Hc Hs _. unf_in Hc; unf_in Hs.
       destruct (var_ty tys sc i) as [t|] eqn:Hv; [|discriminate].
       destruct (expr_ok tys sc e t) eqn:He; [|discriminate]. injection Hc as <-.
       destruct (var_ty_spec _ _ _ _ Hv) as [Hi Hn]. rewrite Hn in Hs.
@@ -306,7 +309,7 @@ Section Stmt.
       assert (Ho : exists o, arith_op op t = Some o).
       { destruct t; [simpl; eauto|]. destruct op; simpl; eauto. discriminate. }
       destruct Ho as (o & Eo).
-      unf. rewrite Hn, Ec, Eo. eexists _, _. split; [reflexivity|].
+      eexists _, _. split; [intros dp lp; unf; rewrite Hn, Ec, Eo; reflexivity|].
       intros p. exists p. split; [|discriminate].
       assert (Ln : nth_error lts i = Some (vt_of t)) by (apply map_nth_error; assumption).
       vs (val_lget lts rt i (vt_of t)); [|assumption]. va Vc. rewrite val_l_cons.
@@ -316,112 +319,128 @@ Section Stmt.
       + destruct op; try discriminate; injection Eo as <-; simpl vt_of; rewrite val_fbin; cbv beta iota;
           (vs (val_lset lts rt i (VTF f)); [reflexivity|assumption]).
     - (* if *)
-      intros c th Hth el Hel sc sc' Hc Hs. unf_in Hc; unf_in Hs.
+      intros c th Hth el Hel sc sc' Hc Hs Hlf. unf_in Hc; unf_in Hs. simpl in Hlf.
+      apply andb_true_iff in Hlf. destruct Hlf as [Lth Lel].
       destruct (cond_ok tys sc c && check_block tys np ret sc th && check_els tys np ret sc el) eqn:C;
         [|discriminate]. injection Hc as <-.
       apply andb_true_iff in C. destruct C as [C Cel]. apply andb_true_iff in C. destruct C as [Cc Cth].
       apply app_nil_inv in Hs. destruct Hs as [Hsc Hs]. apply app_nil_inv in Hs. destruct Hs as [Hsth Hsel].
       destruct (ccond_valid sc c Cc Hsc) as (cc & Ecc & Vcc).
-      destruct (Hth sc Cth Hsth) as (cth & dth & Eth & Vth).
-      destruct (Hel sc Cel Hsel) as (cel & he & dall & Eel & Vel).
-      unf. rewrite Ecc, Eth. destruct el as [|eb|c2 th2 el2].
-      + eexists _, _. split; [reflexivity|]. intros p. exists p. split; [|discriminate].
+      destruct (Hth sc Cth Hsth Lth) as (cth & dth & Eth & Vth).
+      destruct (Hel sc Cel Hsel Lel) as (cel & he & dall & Eel & Vel).
+      destruct el as [|eb|c2 th2 el2].
+      + eexists _, _. split; [intros dp lp; unf; rewrite Ecc, Eth; reflexivity|].
+        intros p. exists p. split; [|discriminate].
         apply (vif cc cth None dth false Vcc Vth I).
-      + rewrite Eel. eexists _, _. split; [reflexivity|]. intros p.
-        pose proof (vif cc cth (Some cel) dth false Vcc Vth Vel p) as V.
+      + eexists _, _. split; [intros dp lp; rewrite cstmt_if, Ecc, Eth, Eel; reflexivity|]. intros p.
+        pose proof (vif cc cth (Some cel) dth false Vcc Vth Vel p) as V. cbv zeta.
         destruct (he && dth && dall).
         * exists true. split; [|reflexivity]. rewrite app_assoc, val_l_app, V. cbv beta iota.
           vs val_unreachable. reflexivity.
         * exists p. split; [|discriminate]. rewrite app_nil_r. exact V.
-      + rewrite Eel. eexists _, _. split; [reflexivity|]. intros p.
-        pose proof (vif cc cth (Some cel) dth false Vcc Vth Vel p) as V.
+      + eexists _, _. split; [intros dp lp; rewrite cstmt_if, Ecc, Eth, Eel; reflexivity|]. intros p.
+        pose proof (vif cc cth (Some cel) dth false Vcc Vth Vel p) as V. cbv zeta.
         destruct (he && dth && dall).
         * exists true. split; [|reflexivity]. rewrite app_assoc, val_l_app, V. cbv beta iota.
           vs val_unreachable. reflexivity.
         * exists p. split; [|discriminate]. rewrite app_nil_r. exact V.
     - (* return *)
-      intros e sc sc' Hc Hs. unf_in Hc; unf_in Hs.
+      intros e sc sc' Hc Hs _. unf_in Hc; unf_in Hs.
       destruct (expr_ok tys sc e ret) eqn:He; [|discriminate]. injection Hc as <-.
       destruct (cexpr_to_valid sc e ret None He Hs) as (c & Ec & Vc).
-      unf. rewrite Ec. eexists _, _. split; [reflexivity|].
+      eexists _, _. split; [intros dp lp; unf; rewrite Ec; reflexivity|].
       intros p. exists true. split; [|reflexivity]. va Vc. vs val_return. reflexivity.
+    - intros c b _ sc sc' _ _ H. discriminate.
+    - intros b _ sc sc' _ _ H. discriminate.
+    - intros i lim t start stop step b _ sc sc' _ _ H. discriminate.
+    - intros sc sc' _ _ H. discriminate.
+    - intros sc sc' _ _ H. discriminate.
     - (* empty block *)
-      intros sc _ _. eexists _, _. split; [reflexivity|]. intros p. exists p. split; [reflexivity|discriminate].
+      intros sc _ _ _. eexists _, _. split; [intros dp lp; reflexivity|].
+      intros p. exists p. split; [reflexivity|discriminate].
     - (* s ; rest *)
-      intros s Hs b Hb sc Hc Hf. unf_in Hc; unf_in Hf.
+      intros s Hs b Hb sc Hc Hf Hlf. unf_in Hc; unf_in Hf. simpl in Hlf.
+      apply andb_true_iff in Hlf. destruct Hlf as [Ls Lb].
       destruct (check_stmt tys np ret sc s) as [sc'|] eqn:Cs; [|discriminate].
       apply app_nil_inv in Hf. destruct Hf as [Hf1 Hf2].
-      destruct (Hs sc sc' Cs Hf1) as (cs & ds & Ecs & Vs).
-      destruct (Hb sc' Hc Hf2) as (cr & dr & Ecr & Vr).
-      unf. rewrite Ecs. destruct ds.
-      + eexists _, _. split; [reflexivity|]. exact Vs.
-      + rewrite Ecr. eexists _, _. split; [reflexivity|]. intros p.
+      destruct (Hs sc sc' Cs Hf1 Ls) as (cs & ds & Ecs & Vs).
+      destruct (Hb sc' Hc Hf2 Lb) as (cr & dr & Ecr & Vr).
+      destruct ds.
+      + eexists _, _. split; [intros dp lp; rewrite cblock_cons, Ecs; reflexivity|]. exact Vs.
+      + eexists _, _. split; [intros dp lp; rewrite cblock_cons, Ecs, Ecr; reflexivity|]. intros p.
         destruct (Vs p) as (p1 & E1 & _). destruct (Vr p1) as (p2 & E2 & D2).
         exists p2. split; [|assumption]. va E1. exact E2.
     - (* no else *)
-      intros sc _ _. eexists _, _, _. split; [reflexivity|]. intros p. exists p. split; [reflexivity|discriminate].
+      intros sc _ _ _. eexists _, _, _. split; [intros dp lp; reflexivity|].
+      intros p. exists p. split; [reflexivity|discriminate].
     - (* else *)
-      intros b Hb sc Hc Hf. unf_in Hc; unf_in Hf.
-      destruct (Hb sc Hc Hf) as (cb & db & Ecb & Vb).
-      unf. rewrite Ecb. eexists _, _, _. split; [reflexivity|].
+      intros b Hb sc Hc Hf Hlf. unf_in Hc; unf_in Hf. simpl in Hlf.
+      destruct (Hb sc Hc Hf Hlf) as (cb & db & Ecb & Vb).
+      eexists _, _, _. split; [intros dp lp; rewrite cels_else, Ecb; reflexivity|].
       intros p. destruct (Vb p) as (p' & E & _). exists p'. split; [assumption|discriminate].
     - (* else if *)
-      intros c th Hth el Hel sc Hc Hs. unf_in Hc; unf_in Hs.
+      intros c th Hth el Hel sc Hc Hs Hlf. unf_in Hc; unf_in Hs. simpl in Hlf.
+      apply andb_true_iff in Hlf. destruct Hlf as [Lth Lel].
       apply andb_true_iff in Hc. destruct Hc as [C Cel]. apply andb_true_iff in C. destruct C as [Cc Cth].
       apply app_nil_inv in Hs. destruct Hs as [Hsc Hs]. apply app_nil_inv in Hs. destruct Hs as [Hsth Hsel].
       destruct (ccond_valid sc c Cc Hsc) as (cc & Ecc & Vcc).
-      destruct (Hth sc Cth Hsth) as (cth & dth & Eth & Vth).
-      destruct (Hel sc Cel Hsel) as (cel & he & dall & Eel & Vel).
-      unf. rewrite Ecc, Eth, Eel. eexists _, _, _. split; [reflexivity|]. intros p.
+      destruct (Hth sc Cth Hsth Lth) as (cth & dth & Eth & Vth).
+      destruct (Hel sc Cel Hsel Lel) as (cel & he & dall & Eel & Vel).
+      eexists _, _, _. split; [intros dp lp; rewrite cels_elif, Ecc, Eth, Eel; reflexivity|]. intros p.
       exists p. split; [apply (vif cc cth (Some cel) dth false Vcc Vth Vel)|discriminate].
   Qed.
 
   (* "returns on all paths" makes the compiler's divergence flag true *)
   Definition rstmt_spec (s : stmt) : Prop :=
-    forall code d, cstmt tys ret s = Some (code, d) -> returns_stmt s = true -> d = true.
+    forall dp lp code d, cstmt tys ret dp lp s = Some (code, d) -> returns_stmt s = true -> d = true.
   Definition rblock_spec (b : block) : Prop :=
-    forall code d, cblock tys ret b = Some (code, d) -> returns_block b = true -> d = true.
+    forall dp lp code d, cblock tys ret dp lp b = Some (code, d) -> returns_block b = true -> d = true.
   Definition rels_spec (el : els) : Prop :=
-    forall code he d, cels tys ret el = Some (code, he, d) -> returns_els el = true -> he = true /\ d = true.
+    forall dp lp code he d, cels tys ret dp lp el = Some (code, he, d) -> returns_els el = true -> he = true /\ d = true.
 
   Lemma returns_diverge :
     (forall s, rstmt_spec s) /\ (forall b, rblock_spec b) /\ (forall el, rels_spec el).
   Proof.
     apply stmt_block_els_ind.
-    - intros i t e code d _ H. discriminate.
-    - intros i e code d _ H. discriminate.
-    - intros i op e code d _ H. discriminate.
-    - intros c th Hth el Hel code d Hc Hr. rewrite cstmt_if in Hc.
+    - intros i t e dp lp code d _ H. discriminate.
+    - intros i e dp lp code d _ H. discriminate.
+    - intros i op e dp lp code d _ H. discriminate.
+    - intros c th Hth el Hel dp lp code d Hc Hr. rewrite cstmt_if in Hc.
       simpl in Hr. apply andb_true_iff in Hr. destruct Hr as [Rth Rel].
       destruct (ccond tys c) as [cc|]; [|discriminate].
-      destruct (cblock tys ret th) as [[cth dth]|] eqn:Eth; [|discriminate].
+      destruct (cblock tys ret (S dp) lp th) as [[cth dth]|] eqn:Eth; [|discriminate].
       assert (Dth : dth = true) by (eapply Hth; eauto).
       destruct el as [|eb|c2 th2 el2]; [discriminate| |].
-      + destruct (cels tys ret (ElElse eb)) as [[[cel he] dall]|] eqn:Eel; [|discriminate].
-        destruct (Hel _ _ _ Eel Rel) as [-> ->]. injection Hc as _ <-. subst dth. reflexivity.
-      + destruct (cels tys ret (ElElif c2 th2 el2)) as [[[cel he] dall]|] eqn:Eel; [|discriminate].
-        destruct (Hel _ _ _ Eel Rel) as [-> ->]. injection Hc as _ <-. subst dth. reflexivity.
-    - intros e code d Hc _. rewrite cstmt_return in Hc.
+      + destruct (cels tys ret (S dp) lp (ElElse eb)) as [[[cel he] dall]|] eqn:Eel; [|discriminate].
+        destruct (Hel _ _ _ _ _ Eel Rel) as [-> ->]. injection Hc as _ <-. subst dth. reflexivity.
+      + destruct (cels tys ret (S dp) lp (ElElif c2 th2 el2)) as [[[cel he] dall]|] eqn:Eel; [|discriminate].
+        destruct (Hel _ _ _ _ _ Eel Rel) as [-> ->]. injection Hc as _ <-. subst dth. reflexivity.
+    - intros e dp lp code d Hc _. rewrite cstmt_return in Hc.
       destruct (cexpr_to tys None e ret); [|discriminate]. injection Hc as _ <-. reflexivity.
-    - intros code d _ H. discriminate.
-    - intros s Hs b Hb code d Hc Hr. rewrite cblock_cons in Hc. simpl in Hr.
-      destruct (cstmt tys ret s) as [[cs ds]|] eqn:Ecs; [|discriminate]. destruct ds.
+    - intros c b _ dp lp code d _ H. discriminate.
+    - intros b _ dp lp code d _ H. discriminate.
+    - intros i lim t start stop step b _ dp lp code d _ H. discriminate.
+    - intros dp lp code d _ H. discriminate.
+    - intros dp lp code d _ H. discriminate.
+    - intros dp lp code d _ H. discriminate.
+    - intros s Hs b Hb dp lp code d Hc Hr. rewrite cblock_cons in Hc. simpl in Hr.
+      destruct (cstmt tys ret dp lp s) as [[cs ds]|] eqn:Ecs; [|discriminate]. destruct ds.
       + injection Hc as _ <-. reflexivity.
-      + destruct (cblock tys ret b) as [[cr dr]|] eqn:Ecr; [|discriminate]. injection Hc as _ <-.
+      + destruct (cblock tys ret dp lp b) as [[cr dr]|] eqn:Ecr; [|discriminate]. injection Hc as _ <-.
         apply orb_true_iff in Hr. destruct Hr as [Hr|Hr].
-        * specialize (Hs _ _ Ecs Hr). discriminate.
+        * specialize (Hs _ _ _ _ Ecs Hr). discriminate.
         * eapply Hb; eauto.
-    - intros code he d _ H. discriminate.
-    - intros b Hb code he d Hc Hr. rewrite cels_else in Hc. simpl in Hr.
-      destruct (cblock tys ret b) as [[cb db]|] eqn:Ecb; [|discriminate]. injection Hc as _ <- <-.
+    - intros dp lp code he d _ H. discriminate.
+    - intros b Hb dp lp code he d Hc Hr. rewrite cels_else in Hc. simpl in Hr.
+      destruct (cblock tys ret dp lp b) as [[cb db]|] eqn:Ecb; [|discriminate]. injection Hc as _ <- <-.
       split; [reflexivity|]. eapply Hb; eauto.
-    - intros c th Hth el Hel code he d Hc Hr. rewrite cels_elif in Hc. simpl in Hr.
+    - intros c th Hth el Hel dp lp code he d Hc Hr. rewrite cels_elif in Hc. simpl in Hr.
       apply andb_true_iff in Hr. destruct Hr as [Rth Rel].
       destruct (ccond tys c) as [cc|]; [|discriminate].
-      destruct (cblock tys ret th) as [[cth dth]|] eqn:Eth; [|discriminate].
-      destruct (cels tys ret el) as [[[cel he'] dall]|] eqn:Eel; [|discriminate].
-      injection Hc as _ <- <-. destruct (Hel _ _ _ Eel Rel) as [-> ->].
-      rewrite (Hth _ _ Eth Rth). split; reflexivity.
+      destruct (cblock tys ret (S dp) lp th) as [[cth dth]|] eqn:Eth; [|discriminate].
+      destruct (cels tys ret (S dp) lp el) as [[[cel he'] dall]|] eqn:Eel; [|discriminate].
+      injection Hc as _ <- <-. destruct (Hel _ _ _ _ _ Eel Rel) as [-> ->].
+      rewrite (Hth _ _ _ _ Eth Rth). split; reflexivity.
   Qed.
 End Stmt.
 
@@ -435,15 +454,16 @@ Qed.
 
 (* the emitted function validates *)
 Theorem validates_partial f :
-  check_func f = true -> locals_ok f = true -> static_flags f = [] ->
+  check_func f = true -> locals_ok f = true -> loop_free_block (f_body f) = true ->
+  static_flags f = [] ->
   exists w, compile f = Some w /\ validate w = true.
 Proof.
-  intros Hc Hl Hs. unfold check_func in Hc. apply andb_true_iff in Hc. destruct Hc as [Hc Hr].
+  intros Hc Hl Hlf Hs. unfold check_func in Hc. apply andb_true_iff in Hc. destruct Hc as [Hc Hr].
   destruct (vstmts_ok (f_tys f) (length (f_params f)) (f_ret f)) as (_ & HB & _).
-  destruct (HB (f_body f) _ Hc Hs) as (code & d & Ec & V).
+  destruct (HB (f_body f) _ Hc Hs Hlf) as (code & d & Ec & V).
   destruct (returns_diverge (f_tys f) (f_ret f)) as (_ & RB & _).
-  pose proof (RB (f_body f) code d Ec Hr) as D.
-  unfold compile. rewrite Ec. eexists. split; [reflexivity|].
+  pose proof (RB (f_body f) 0%nat None code d (Ec 0%nat None) Hr) as D.
+  unfold compile. rewrite (Ec 0%nat None). eexists. split; [reflexivity|].
   unfold validate. simpl w_params. simpl w_locals. simpl w_result. simpl w_body.
   rewrite (locals_ok_eq f Hl), <- map_app. fold (f_tys f).
   destruct (V false) as (p' & E & P). rewrite E. rewrite (P D). reflexivity.
